@@ -416,6 +416,47 @@ def bitfields(rep, fn):
     (rep.proved if pr["EVLAST"] < (1 << ev_bits) else rep.violated)("R-CFGX", fn, "event-field-width", "the event field can hold every event kind")
 
 
+def record_widths(rep, u):
+    """the fields of the event record travel through helper parameters of the same width: a parameter named after a
+    tp_event_t field has that field's integer type width, and no call narrows such a value implicitly"""
+    rc = None
+    for r in u.records.values():
+        if {"event", "flags", "fflags", "data"} <= {f["n"] for f in r.get("fields", [])}:
+            rc = r
+    if rc is None:
+        raise driver.AnalysisBroken("event record (event, flags, fflags, data) not found")
+    fw = {f["n"]: u.type(f["t"]) for f in rc["fields"] if u.type(f["t"])["k"] == "int"}
+    n = 0
+    for fn in u.function_list:
+        if fn.relfile() != tp.TP_C:
+            continue
+        if not any(c.get("fn") in ("tpt_ev_post", "tpt_ev_post_validate", "tpt_ev_post_validate_args", "tpt_ev_validate") for _, _, c, _ in fn.calls()) \
+                and fn.name not in ("tpt_ev_post_validate_args",):
+            continue
+        for p in fn.params:
+            t = u.type(p["t"])
+            if p["n"] in fw and t["k"] == "int":
+                n += 1
+                rep.functions.add(fn.name)
+                desc = "parameter '%s' of %s carries tp_event_t.%s without loss" % (p["n"], fn.name, p["n"])
+                if t.get("w") == fw[p["n"]].get("w"):
+                    rep.proved("R-WIDTH", fn, "param:" + p["n"], desc, "%s (%d bits)" % (t["s"], t["w"]))
+                else:
+                    rep.violated("R-WIDTH", fn, "param:" + p["n"], desc, "declared %s (%d bits), the field is %s (%d bits): values >= 2^%d are "
+                                 "truncated on the way to tpt_ev_post" % (t["s"], t["w"], fw[p["n"]]["s"], fw[p["n"]]["w"], t["w"]))
+        for pos, root, c, ps in fn.calls():
+            for i, a in enumerate(c["args"]):
+                if a.get("k") == "cast" and a.get("imp") and a.get("ck") == "IntegralCast" and "t" in a and "t" in a["e"]:
+                    td, ts = u.type(a["t"]), u.type(a["e"]["t"])
+                    src = core.strip_casts(a["e"])
+                    nm = src.get("n") if src.get("k") == "ref" else (src.get("f") if src.get("k") == "mem" else None)
+                    if nm in fw and td["k"] == "int" and ts["k"] == "int" and td.get("w", 0) < ts.get("w", 0):
+                        n += 1
+                        rep.violated("R-WIDTH", fn, "arg:%s->%s#%d" % (nm, c.get("fn"), i), "'%s' is passed on without narrowing" % nm,
+                                     "implicitly converted from %s to %s in the call of %s" % (ts["s"], td["s"], c.get("fn")), c.get("ln"))
+    return n
+
+
 def run(rep, tier):
     us = tp.units((tp.TP_C,))
     rep.use_units(us)
@@ -440,6 +481,7 @@ def run(rep, tier):
     nf = fd_pairing(rep, fp)
     rep.floor("descriptor creation sites", nf, 2)
     bitfields(rep, fp)
+    rep.floor("event-record parameters", record_widths(rep, u), 8)
     return driver.finish(
         rep, "other",
         "Static analysis of the Linux (epoll) branch of threadpool.c; the BSD/kqueue branch is not compiled here and is NOT "
